@@ -11,6 +11,9 @@ mod c07;
 mod c08;
 mod c09;
 mod c10;
+mod c11;
+mod c12;
+mod c13;
 mod e2;
 mod c19;
 mod e1;
@@ -53,6 +56,9 @@ fn main() {
         "C08" => c08::run(tier, replay),
         "C09" => c09::run(tier, replay),
         "C10" => c10::run(tier, replay),
+        "C11" => c11::run(tier, replay),
+        "C12" => c12::run(tier, replay),
+        "C13" => c13::run(tier, replay),
         "C19" => c19::run(tier, replay),
         other => {
             eprintln!("unknown property id {}", other);
